@@ -79,6 +79,18 @@ try:
     if got != want: R.fail("c20.saved_config_is_the_last_writers", "restore() of a re-used directory rebuilds a solver with another configuration than the one that wrote the latest checkpoint", inp, got, want)
 except Exception as ex:
     R.fail("c20.route_works", f"re-used directory: {type(ex).__name__}", dict(history="two solvers, one directory"), str(ex)[:200])
+# ---------------------------------------------------------------- one configuration object re-used for a sweep over problems: every saved configuration describes ITS OWN problem
+try:
+    from mdpax.solvers.value_iteration import ValueIterationConfig
+    shared = ValueIterationConfig(gamma=0.9, epsilon=1e-3, verbose=0, checkpoint_frequency=2)
+    for pf in (0.1, 0.4):
+        shared.checkpoint_dir = os.path.join(scratch, f"sweep_p{pf}"); sv = S.ValueIteration(problem=Forest(S=5, p=pf), config=shared); sv.solve(4)
+        if getattr(sv, "checkpoint_manager", None) is not None: sv.checkpoint_manager.wait_until_finished()
+    inp = dict(history="one ValueIterationConfig object re-used for Forest(p=0.1) and then Forest(p=0.4), each with its own checkpoint_dir; restore(second directory)"); R.case(("shared_config_object",), inp)
+    r = S.ValueIteration.restore(os.path.join(scratch, "sweep_p0.4"), new_checkpoint_dir=os.path.join(scratch, "sweep_r"))
+    if abs(float(r.problem.p) - 0.4) > 1e-12: R.fail("c20.saved_config_describes_own_problem", "the solver rebuilt from the saved configuration has another problem than the one that was solved", inp, float(r.problem.p), 0.4)
+except Exception as ex:
+    R.fail("c20.route_works", f"re-used configuration object: {type(ex).__name__}", dict(history="shared config object"), str(ex)[:200])
 # ---------------------------------------------------------------- every accepted parameter set works
 for sn in (SOLV if TH else ["ValueIteration", "PolicyIteration", "SemiAsyncValueIteration", "PeriodicValueIteration"]):
     for g, eps in itertools.product(([0.0, 1e-3, 0.5, 1.0] if sn != "RelativeValueIteration" else [1.0]), ([1e-8, 1.0, 250.0, 1e6] if TH else [1e-8, 250.0])):
